@@ -10,6 +10,7 @@ from vf import hlib, ops
 from vf.hlib import FAMILIES, Leaves, MISSING, case, fail, fill, finish, get_env, pick, plain, same_tree, is_plain, at, copy_tree
 
 PID = "C01"
+IDX = [-2, -1, 0, 1, 2]
 Leaf = int
 
 WHICH = ["dict", "list"]
@@ -64,14 +65,12 @@ def run_ref(op, target, a):
 
 def step(depth: int, tk: int, opi: int, vs: int, i: int, j: int, x: int, y: int, z: int, v1: Leaf, v2: Leaf) -> bool:
     """
-    pre: -2 <= i <= 2
     post: _
     """
     env = get_env().reset()
     # partition = (class, handle depth); `depth` parameter is therefore not inspected
     fam, which = PARTS[hlib.PART % len(PARTS)]
     depth = hlib.PART // len(PARTS)
-    j = i + 1  # C01 needs one symbolic index only (slice semantics are C03's)
     tkind = pick(WHICH, tk)
     if tkind is None:
         return finish(False, True)
@@ -80,6 +79,11 @@ def step(depth: int, tk: int, opi: int, vs: int, i: int, j: int, x: int, y: int,
     op = pick(ops.mutators(tkind), opi)
     if op is None:
         return finish(False, True)
+    # the index is decided by the solver, concrete afterwards (slice semantics are C03's)
+    i = pick(IDX, i) if op.i else 0
+    if i is None:
+        return finish(False, True)
+    j = i + 1
     # selectors an operation does not use are never inspected (no fork on them)
     shape = pick(vshapes(), vs) if op.v else vshapes()[0]
     if shape is None:
@@ -98,7 +102,7 @@ def step(depth: int, tk: int, opi: int, vs: int, i: int, j: int, x: int, y: int,
     if r_lib[0] == "exc" or r_ref[0] == "exc":
         # the call did not return: outside C01 (same-exception refinement is C03's)
         return finish(False, True)
-    case(fam.cls(which).__name__, f"depth{depth}", tkind, op.name, shape[0])
+    case(fam.cls(which).__name__, f"depth{depth}", tkind, op.name, shape[0], i)
     want = plain(ref)
     got = fam.read(env, "r")
     if got is MISSING or not is_plain(got) or not same_tree(got, want):
@@ -118,10 +122,12 @@ def prog_parts():
 
 def prog2(tk: int, op1: int, op2: int, vs: int, i: int, x: int, y: int, z: int, v1: Leaf, v2: Leaf) -> bool:
     """
-    pre: -1 <= i <= 1
     post: _
     """
     env = get_env().reset()
+    i = pick([-1, 0, 1] if hlib.TIER == "thorough" else [0], i)
+    if i is None:
+        return finish(False, True)
     # partition = class x kind of the target container
     fam, which = prog_parts()[(hlib.PART // 2) % len(prog_parts())]
     tkind = WHICH[hlib.PART % 2]
@@ -132,7 +138,7 @@ def prog2(tk: int, op1: int, op2: int, vs: int, i: int, x: int, y: int, z: int, 
     o2 = pick(muts, op2)
     if o1 is None or o2 is None:
         return finish(False, True)
-    shape = pick(VSHAPES_QUICK[:2], vs) if (o1.v or o2.v) else VSHAPES_QUICK[0]
+    shape = pick(VSHAPES_QUICK[:2] if hlib.TIER == "thorough" else VSHAPES_QUICK[1:2], vs) if (o1.v or o2.v) else VSHAPES_QUICK[0]
     if shape is None:
         return finish(False, True)
     doc, path = build(which, 1, tkind, Leaves(x, y, z))
